@@ -217,8 +217,9 @@ class Call(object):
             elif kind == 'arr' or raw:
                 o = bufs[spec[-1]]
             else:
+                # no assertion on sharing here: an element that does not wrap its buffer shows up
+                # as a difference in the observed final contents / memory sharing
                 o = spec[1].element(bufs[spec[2]])
-                assert o.asarray() is bufs[spec[2]]
             cache[id(spec)] = o
             return o
         ins = [mk(s) for s in self.ins]
@@ -258,7 +259,7 @@ class Call(object):
 
     def observe(self, raw):
         """run on fresh copies of the buffers; returns (observation term, python summary)"""
-        bufs = [b.copy() for b in self.bufs]
+        bufs = [relayout(b) for b in self.bufs]
         ins, outs = self._objs(bufs, raw)
         self._raw = raw
         try:
@@ -367,7 +368,7 @@ class Call(object):
 
     def _oracle(self, want_values):
         """NumPy on raw copies WITHOUT out: result dtypes (+ values for the oracle ufuncs)"""
-        bufs = [b.copy() for b in self.bufs]
+        bufs = [relayout(b) for b in self.bufs]
         ins, _ = self._objs(bufs, True)
         self._raw = True
         try:
@@ -388,6 +389,13 @@ class Call(object):
 def ivals(rng, shape, lo=-3, hi=3, dtype=float):
     n = int(np.prod(shape))
     return np.array([rng.randint(lo, hi) for _ in range(n)], dtype=dtype).reshape(shape)
+
+
+def lay_arr(rng, arr):
+    """the same contents in a random memory layout (half of the time plain C order)"""
+    if arr.size == 0 or arr.ndim == 0 or rng.random() < 0.5:
+        return arr
+    return make_layout(arr, rng.choice(['F', 'T', 'S', 'N']))
 
 
 def rand_shape(rng, ndim=None, lo=1, hi=4):
@@ -426,7 +434,7 @@ def discr_space_for(rng, shape, dtype='float64'):
 
 def mk_elem(rng, kind, shape, bufs, dtype='float64', lo=-3, hi=3):
     """new buffer + element spec of the requested kind over it"""
-    arr = ivals(rng, shape, lo, hi, dtype=np.dtype(dtype))
+    arr = lay_arr(rng, ivals(rng, shape, lo, hi, dtype=np.dtype(dtype)))
     bufs.append(arr)
     i = len(bufs) - 1
     if kind == 'arr':
@@ -440,7 +448,7 @@ def respace(rng, spec, bufs, kind, dtype=None, shape=None):
     """an out container of the given kind (fresh buffer) matching the spec's shape"""
     shape = tuple(shape if shape is not None else bufs[spec[-1]].shape)
     dtype = dtype or bufs[spec[-1]].dtype
-    arr = ivals(rng, shape, 7, 9, dtype=np.dtype(dtype))
+    arr = lay_arr(rng, ivals(rng, shape, 7, 9, dtype=np.dtype(dtype)))
     bufs.append(arr)
     i = len(bufs) - 1
     if kind == 'arr':
@@ -457,11 +465,11 @@ def second_operand(rng, x, bufs, allow_elem=True):
     if c == 'self':
         return x, c
     if c == 'elem':
-        arr = ivals(rng, shape, dtype=bufs[x[-1]].dtype)
+        arr = lay_arr(rng, ivals(rng, shape, dtype=bufs[x[-1]].dtype))
         bufs.append(arr)
         return (x[0], x[1], len(bufs) - 1), c
     if c == 'arr':
-        arr = ivals(rng, shape)
+        arr = lay_arr(rng, ivals(rng, shape))
         bufs.append(arr)
         return ('arr', len(bufs) - 1), c
     if c == 'row':
@@ -664,6 +672,15 @@ def _gen_calls(rng, tier):
                             outs = [respace(rng, x, bufs, okind, shape=np.shape(r))]
                         if bname in NONZERO:
                             bufs[x[-1]][bufs[x[-1]] == 0] = 1
+                        if outs is not None and bname in ('maximum', 'minimum', 'fmax', 'fmin') \
+                                and any(st_ < 0 for st_ in bufs[x[-1]].strides):
+                            # NumPy 1.26.4 itself is wrong here (not ODL): maximum/minimum/fmax/fmin.reduce over an
+                            # axis with a NEGATIVE stride combined with out= starts from the wrong entry, e.g.
+                            # a = np.array([[-2., 0.], [2., -1.]])[::-1].copy()[::-1]
+                            # np.maximum.reduce(a, axis=0, out=np.zeros(2)) -> [-2, 0] instead of [2, 0].
+                            # ODL passes the same arrays through, so both sides agree with each other but not
+                            # with exact arithmetic: keep such inputs out of the exact comparison.
+                            bufs[x[-1]] = np.ascontiguousarray(bufs[x[-1]])
                         c = Call(getattr(np, bname), 'reduce', bufs, [x], outs, axis=axis, **kw)
                         yield c, {'kind': kind, 'ufunc': bname, 'method': 'reduce', 'axis': axk, 'out': outk,
                                   'shape': shape, 'dtype': dtype}, (kind, bname, 'reduce', axk, outk, nd, dtype)
